@@ -102,3 +102,29 @@ let () = register "merge" (fun args ->
     match args with
     | [a; b] -> lx_pos (merge (p a) (p b))
     | _ -> "error\targs")
+
+(* ---- C12: literal reader (coq/ReadLit.v) ------------------------------------
+   readlit <hexsrc>  ->  none | <tree>\t<hex of show v>
+   <tree> is written exactly as the hook op `sexp` writes the parser's tree of the
+   same literal: (int N) (str "..") (var True) (call (var Some) (args X))
+   (list X Y) (tuple X Y). *)
+let rec lx_tree (v : lit) : string =
+  match v with
+  | LInt z -> "(int " ^ string_of_z z ^ ")"
+  | LStr s -> "(str " ^ lx_encode (escape s) ^ ")"
+  | LBool true -> "(var True)"
+  | LBool false -> "(var False)"
+  | LUnit -> "(var Unit)"
+  | LNone -> "(var None)"
+  | LSome x -> "(call (var Some) (args " ^ lx_tree x ^ "))"
+  | LOk x -> "(call (var Ok) (args " ^ lx_tree x ^ "))"
+  | LErr x -> "(call (var Err) (args " ^ lx_tree x ^ "))"
+  | LList vs -> "(" ^ String.concat " " ("list" :: List.map lx_tree vs) ^ ")"
+  | LTuple vs -> "(" ^ String.concat " " ("tuple" :: List.map lx_tree vs) ^ ")"
+
+let () = register "readlit" (fun args ->
+    match args with
+    | [h] -> (match read_source (lx_src h) with
+        | None -> "none"
+        | Some v -> hex (lx_tree v) ^ "\t" ^ lx_hex (show v))
+    | _ -> "error\targs")
